@@ -363,6 +363,44 @@ Definition violations (I : instance) : list (string * nat) :=
 Definition other_violations (I : instance) : list (string * nat) :=
   bad_methods I (i_other I).
 
+(* ---- one critical section per call ---------------------------------------------------------
+   The discipline makes every critical section atomic; a CALL is atomic (one step of the sequential
+   specification, as the atomic-section semantics of RunConc.v assumes) only if it consists of at
+   most one outermost critical section.  [sections_path]: how many outermost sections a path opens
+   (a section opened inside a loop counts twice: it can repeat).  Goroutine bodies must open none:
+   what they do under a lock of their own would happen outside the call that started them. *)
+Fixpoint sections_code (depth : nat) (c : list act) : nat * nat :=
+  match c with
+  | [] => (0, depth)
+  | Acq _ _ :: k => let '(n, d) := sections_code (S depth) k in ((if Nat.eqb depth 0 then S n else n), d)
+  | Rel _ _ :: k => sections_code (pred depth) k
+  | Handoff _ :: k => sections_code 0 k
+  | _ :: k => sections_code depth k
+  end.
+Definition has_acq (c : list act) : bool :=
+  existsb (fun a => match a with Acq _ _ => true | _ => false end) c.
+Fixpoint sections_path (depth : nat) (p : path) : nat :=
+  match p with
+  | [] => 0
+  | Straight l :: p' => let '(n, d) := sections_code depth l in n + sections_path d p'
+  | Iter alts :: p' =>
+      (if Nat.eqb depth 0 && existsb has_acq alts then 2 else 0) + sections_path depth p'
+  end.
+Fixpoint multi_from (name : string) (n : nat) (ps : list path) : list (string * nat) :=
+  match ps with
+  | [] => []
+  | p :: ps' => (if Nat.leb (sections_path 0 p) 1 then [] else [(name, n)]) ++ multi_from name (S n) ps'
+  end.
+Fixpoint multi_entries (n : nat) (es : list (string * held * path)) : list (string * nat) :=
+  match es with
+  | [] => []
+  | e :: es' =>
+      (if Nat.eqb (sections_path (List.length (snd (fst e))) (snd e)) 0 then [] else [(fst (fst e), n)])
+      ++ multi_entries (S n) es'
+  end.
+Definition atomicity_violations (I : instance) : list (string * nat) :=
+  multi_entries 0 (i_tbl I) ++ flat_map (fun e => multi_from (fst e) 0 (snd e)) (i_methods I).
+
 (* the codes one call of a method of the property can run *)
 Definition call_code (I : instance) (cd : list act) : Prop :=
   exists name ps p, In (name, ps) (i_methods I) /\ In p ps /\ expands p cd.
